@@ -123,11 +123,8 @@ let classify (o : hop) (expected : string) (impl : string) : string =
   | HAdd _ -> "delivery"
   | HReq _ | HRace _ -> if expected = "404" then "missing-not-404" else "api-differs-from-store"
 
-let () =
-  Mlutil.iter_lines (fun line ->
-    let (kind, ins, outs) = Mlutil.split_case line in
-    match kind, ins with
-    | "hist", [storef; _naming; basef; opsf] ->
+(* One history (kind `hist`, or `asm14` = the same against the assembled server): model line and oracle verdict. *)
+let judge (asm : bool) (storef : string) (basef : string) (opsf : string) (outs : string list) : unit =
         mfa_miss := false;
         let mfa_field = try List.find (fun f -> String.length f >= 2 && String.sub f 0 2 = "M=") outs with Not_found -> "M=" in
         let mfa = mk_mfa (parse_mfa mfa_field) in
@@ -143,10 +140,23 @@ let () =
         let cbase = join_slash base in
         let is_file = (List.hd (sp '.' storef) = "file") in
         (* "x:<mb>:<k>": the content file of message k of mb vanishes (file store; nothing to lose in memory) *)
-        let ops = if opsf = "-" then [] else List.map (fun o ->
+        (* assembled-system stream: a delivery goes over SMTP; when the server stamped it and how many bytes it stored
+           are observations ("A:<millis>:<size>") that enter the model as the delivery's date and size *)
+        let op_strs = if opsf = "-" then [] else sp ',' opsf in
+        let asm_err = ref (-1) in
+        let op_strs = if not asm then op_strs else
+            List.mapi (fun i o ->
+              match sp ':' o with
+              | ["a"; mb; _; tag; _] ->
+                  (match (try sp ':' (List.nth outs i) with _ -> []) with
+                   | ["A"; millis; size] -> String.concat ":" ["a"; mb; millis; tag; size]
+                   | _ -> (if !asm_err < 0 then asm_err := i); String.concat ":" ["a"; mb; "0"; tag; "0"])
+              | _ -> o) op_strs in
+        let add_tok i = if asm then (try List.nth outs i with _ -> "A") else "A" in
+        let ops = List.map (fun o ->
             match sp ':' o with
             | ["x"; mb; k] -> `Vanish (Mlutil.unhex mb, int_of_string k)
-            | _ -> `Model (parse_op base o)) (sp ',' opsf) in
+            | _ -> `Model (parse_op base o)) op_strs in
         let srcok_of broken = fun (mb : n list) (k : nat) -> not (List.mem (raw_of_str mb, int_of_nat k) broken) in
         (* the environment of one step: for a race, the content of the raced message is gone on the file store *)
         let env broken o = match o with
@@ -154,12 +164,13 @@ let () =
           | _ -> srcok_of broken in
         let remove st mbs k = fst (fst (exec_spec cfg st (Remove (mbs, Kth k)))) in
         (* model: what the code is predicted to answer *)
-        let (mst, _, mtoks) = List.fold_left (fun (st, broken, acc) o ->
+        let tok_of i o out = (match o with HAdd _ -> add_tok i | _ -> hout_tok out) in
+        let (mst, _, mtoks, _) = List.fold_left (fun (st, broken, acc, i) o ->
           match o with
-          | `Vanish (m, k) -> (st, (if is_file then (m, k) :: broken else broken), "X" :: acc)
+          | `Vanish (m, k) -> (st, (if is_file then (m, k) :: broken else broken), "X" :: acc, i + 1)
           | `Model o ->
-              let (st', out) = hstep mfa cfg (env broken o) base cbase st o in (st', broken, hout_tok out :: acc))
-          (spec_init, [], []) ops in
+              let (st', out) = hstep mfa cfg (env broken o) base cbase st o in (st', broken, tok_of i o out :: acc, i + 1))
+          (spec_init, [], [], 0) ops in
         let mtoks = List.rev mtoks in
         let model_outs = mtoks @ [dump_tok mst; mfa_field] @ (if !mfa_miss then ["MFA-MISS"] else []) in
         (* oracle: the specification applied to what the implementation answered; where the specification leaves
@@ -167,7 +178,8 @@ let () =
            connection (handler panic) never *)
         let nops = List.length ops in
         let verdict =
-          if List.length outs < nops + 1 then
+          if !asm_err >= 0 then Printf.sprintf "fail:assembled-delivery-not-visible-through-the-api@%d" !asm_err
+          else if List.length outs < nops + 1 then
             (match outs with "PANIC" :: _ -> "fail:handler-panic" | _ -> "fail:no-answer")
           else begin
             let rec go st broken ops outs i =
@@ -179,7 +191,7 @@ let () =
               | `Model o :: ops', impl :: outs' ->
                   (match hspec mfa cfg (env broken o) base st o with
                    | Some (st', out) ->
-                       let e = hout_tok out in
+                       let e = tok_of i o out in
                        if e = impl then go st' broken ops' outs' (i + 1)
                        else Printf.sprintf "fail:%s@%d" (classify o e impl) i
                    | None ->
@@ -191,4 +203,14 @@ let () =
             go spec_init [] ops outs 0
           end in
         Mlutil.print_model model_outs verdict
+
+let () =
+  Mlutil.iter_lines (fun line ->
+    let (kind, ins, outs) = Mlutil.split_case line in
+    match kind, ins with
+    | "hist", [storef; _naming; basef; opsf] -> judge false storef basef opsf outs
+    | "asm14", [storef; basef; opsf] ->
+        (match outs with
+         | ("SETUPERR" | "CRASH" | "HANG" | "NOOUTPUT") :: _ -> Mlutil.print_model ["-"] ("fail:assembled-server-" ^ String.lowercase_ascii (List.hd outs))
+         | _ -> judge true storef basef opsf outs)
     | _ -> Mlutil.print_model ["UNKNOWN-KIND"] "ok")
